@@ -358,6 +358,34 @@ impl P2p {
         (p2p, handle)
     }
 
+    /// Copy of [`P2p::mocked`] for the verification harness.
+    #[cfg(eigerco_lumina_verif)]
+    pub fn verif_mocked() -> (Self, crate::test_utils::MockP2pHandle) {
+        let (cmd_tx, cmd_rx) = mpsc::channel(16);
+        let (peer_tracker_tx, peer_tracker_rx) = watch::channel(PeerTrackerInfo::default());
+        let cancellation_token = CancellationToken::new();
+
+        // Just a fake join_handle
+        let join_handle = spawn(async {});
+
+        let p2p = P2p {
+            cmd_tx: cmd_tx.clone(),
+            cancellation_token,
+            join_handle,
+            peer_tracker_info_watcher: peer_tracker_rx,
+            local_peer_id: PeerId::random(),
+        };
+
+        let handle = crate::test_utils::MockP2pHandle {
+            cmd_tx,
+            cmd_rx,
+            header_sub_tx: None,
+            peer_tracker_tx,
+        };
+
+        (p2p, handle)
+    }
+
     /// Stop the worker.
     pub fn stop(&self) {
         // Signal the Worker to stop.
